@@ -93,9 +93,10 @@ MkVLA(n, subset, salt, res) ==
       layers |-> [i \in 1..Len(slots) |->
          [stream |-> slots[i] \div 4, spatial |-> slots[i] % 4,
           rates |-> [j \in 1..(((salt + i) % 4) + 1) |-> RateClasses[((salt + 3 * i + j) % 10) + 1]],
-          w |-> IF res THEN (IF (salt + i) % 3 = 0 THEN 65536 ELSE 1 + ((salt * 37 + i) % 1920)) ELSE 0,
-          h |-> IF res THEN (IF (salt + i) % 5 = 0 THEN 1 ELSE 1 + ((salt * 11 + i) % 1080)) ELSE 0,
-          fps |-> IF res THEN (salt * 7 + i) % 256 ELSE 0]]]
+          \* salt % 8 = 7: the all-minimum resolution (1 x 1 at 0 fps) on every layer: all-zero records
+          w |-> IF res THEN (IF salt % 8 = 7 THEN 1 ELSE IF (salt + i) % 3 = 0 THEN 65536 ELSE 1 + ((salt * 37 + i) % 1920)) ELSE 0,
+          h |-> IF res THEN (IF salt % 8 = 7 THEN 1 ELSE IF (salt + i) % 5 = 0 THEN 1 ELSE 1 + ((salt * 11 + i) % 1080)) ELSE 0,
+          fps |-> IF res THEN (IF salt % 8 = 7 THEN 0 ELSE (salt * 7 + i) % 256) ELSE 0]]]
 RECURSIVE Card(_)
 Card(m) == IF m = 0 THEN 0 ELSE (m % 2) + Card(m \div 2)
 SubsetOf(m, n) == { k \in 0..(4 * n - 1) : (m \div Pow2(k)) % 2 = 1 }
